@@ -65,6 +65,8 @@ class GQ:
         return bool(self.re) or bool(self.im)
 
     def __eq__(self, o):
+        if isinstance(o, str) or o is None:
+            return False
         o = GQ.of(o)
         return self.re == o.re and self.im == o.im
 
